@@ -662,7 +662,17 @@ def gen_long_frame(rng):
     pool = [str(v) for v in range(1, hi + 1)] if hi <= 16 else [str(v) for v in (1, 2, 5, 10, 20, 40, 60, 80, 100)]
     low = pool[:max(2, len(pool) // 3)]
     col = [rng.choice(pool) for _ in range(2 ** 14)] + [rng.choice(low) for _ in range(n - 2 ** 14)]
-    return {'kind': 'frame', 'preset': rng.choice(['default', 'minimal,default', 'default']), 'cols': {'f': col}, 'other': {}, 'kinds': ['long']}
+    c = {'kind': 'frame', 'preset': rng.choice(['default', 'minimal,default', 'default']), 'cols': {'f': col}, 'other': {}, 'kinds': ['long']}
+    if rng.random() < 0.5:
+        # a second column of the same length that agrees with the first on its first and last rows (sparse counters that are
+        # empty at both ends of a batch) and differs in between
+        m = rng.choice([1001, 1200, 3000])
+        ends = ['', '', '', '0', '']
+        a = ends + [rng.choice(pool) for _ in range(m - 10)] + ends
+        b = ends + [rng.choice(pool + ['250', '1707']) for _ in range(m - 10)] + ends
+        c = {'kind': 'frame', 'preset': rng.choice(['default', 'minimal', 'default,fw-transformers']), 'cols': {'clicks': a, 'views': b}, 'other': {},
+             'kinds': ['long-shared-ends', 'long-shared-ends']}
+    return c
 
 
 def eval_frames(ctx: Ctx, cases, oracle_only=False):
